@@ -194,6 +194,22 @@ def run_case(ctx, rng, ci):
                 if not ((n == 0 and g.lower() in ("nan", "0")) or (n > 0 and g == "%g" % n)):
                     ctx.violation("csv-count|%s" % ("obsrange" if "obsrange" in opts else "selection"),
                                   "%s -m mae -agg count -x %s row %d input %d: %s cases, documented %d" % (oargv, axis, i, k, g, n), case)
+        if total > 0:
+            # the scores themselves (not only how many cases): mean absolute error per slice on the selected cases
+            o3 = runner.run_cli(paths + cflag + oargv + ["-m", "mae", "-x", axis, "-type", "csv"])
+            ctx.count("csv_value_checks")
+            if o3.status == "ok":
+                h3, rows3 = runner.parse_csv(o3.stdout)
+                for i, row in enumerate(rows3[:len(ref[0])]):
+                    for k in range(F):
+                        pairs = ref[k][i][1]
+                        want = sum(abs(a - b) for a, b in pairs) / len(pairs) if pairs else float("nan")
+                        if not vutil.close_text_number(row[nd + k], want, 6):
+                            ctx.violation("csv-value|%s" % ("obsrange" if "obsrange" in opts else "selection"),
+                                          "%s -m mae -x %s row %d input %d: %s, the selected cases give %r"
+                                          % (oargv, axis, i, k, row[nd + k], want), case)
+            else:
+                ctx.violation("csv-value-run-failed", "%s -m mae -x %s: %s" % (oargv, axis, o3.brief()), case)
         if total == 0:
             ctx.count("empty_selection_checks")
             o2 = runner.run_cli(paths + cflag + oargv + ["-m", "mae", "-x", axis, "-type", "csv"])
